@@ -39,8 +39,12 @@ impl<S: Runtime + 'static> Loop<'_, S> {
         while super::evaluate_condition(self.env, self.condition_command).await?
             == self.expected_condition
         {
-            self.body.execute(self.env).await?;
-            self.exit_status = self.env.exit_status;
+            let result = self.body.execute(self.env).await;
+            // The body has been executed also when it is left by `continue`
+            if let Continue(()) | Break(Divert::Continue { count: 0 }) = result {
+                self.exit_status = self.env.exit_status;
+            }
+            result?;
         }
         Continue(())
     }
